@@ -68,6 +68,8 @@ def _wrap_table(kind, table, names=None):
         if kind == "listoflists_int":
             return ints
         return pd.DataFrame(ints, columns=names or [f"c{j}" for j in range(ncol)], index=np.arange(len(table))[::-1])
+    if kind == "listoflists_mixed":
+        return [[None if c == "None" else c for c in row] for row in table]
     if kind == "dataframe":
         names = names or [f"c{j}" for j in range(ncol)]
         return pd.DataFrame([list(r) for r in table], columns=names, index=np.arange(len(table))[::-1])
@@ -78,6 +80,13 @@ def _wrap_table(kind, table, names=None):
 
 def _is_int_table(table):
     return all(c.lstrip("-").isdigit() and str(int(c)) == c for row in table for c in row)
+
+
+def _none_kind(draw, table, kind):
+    """Tables with the cell 'None': hand it over as the Python object None (lists / object arrays) two times in three."""
+    if any(c == "None" for row in table for c in row) and draw(st.integers(0, 2)) > 0:
+        return draw(st.sampled_from(["ndarray_mixed", "listoflists_mixed"]))
+    return kind
 
 
 def _int_kind(draw, table, kind):
@@ -388,6 +397,8 @@ def _table(draw, min_per=1, max_per=3, max_tuples=5, both_labels=False):
             [("\\", ","), ("\\,", ""), ("", "\\,")],
             [("1", "1.0"), ("1.0", "1"), ("01", "1")],
             [(",", ","), (",,", ""), ("", ",,")],
+            [("None", "a"), ("None", "b"), ("a", "None")],
+            [("None", "None"), ("None", ""), ("nan", "None"), ("None", "nan")],
             [("a\\\\", "b"), ("a\\", "\\b"), ("a", "\\\\b")],
         ]))
         tuples = list(base)
@@ -421,7 +432,7 @@ KINDS = ["ndarray", "dataframe", "listoflists", "ndarray_str"]
 def _moment_cases(draw):
     table, y = draw(_table())
     n = len(table)
-    return {"table": table, "y": y, "kind": _int_kind(draw, table, draw(st.sampled_from(KINDS + ["ndarray_mixed"]))),
+    return {"table": table, "y": y, "kind": _none_kind(draw, table, _int_kind(draw, table, draw(st.sampled_from(KINDS + ["ndarray_mixed"])))),
             "moment": draw(st.sampled_from(["DemographicParity", "DemographicParity", "EqualizedOdds", "TruePositiveRateParity",
                                             "ErrorRateParity", "FalsePositiveRateParity"])),
             "role": draw(st.sampled_from(["sensitive", "sensitive", "control"])),
@@ -434,7 +445,8 @@ def _to_cases(draw):
     n = len(table)
     return {"table": table, "y": y,
             "scores": draw(st.lists(st.sampled_from([0.1, 0.3, 0.5, 0.7, 0.9]), min_size=n, max_size=n)),
-            "kind": _int_kind(draw, table, draw(st.sampled_from(KINDS))), "kind2": _int_kind(draw, table, draw(st.sampled_from(KINDS))),
+            "kind": _none_kind(draw, table, _int_kind(draw, table, draw(st.sampled_from(KINDS)))),
+            "kind2": _none_kind(draw, table, _int_kind(draw, table, draw(st.sampled_from(KINDS)))),
             "constraint": draw(st.sampled_from(["demographic_parity", "equalized_odds", "true_positive_rate_parity",
                                                 "false_positive_rate_parity"])),
             "grid_size": draw(st.sampled_from([10, 1000])), "flip": draw(st.booleans()),
